@@ -26,7 +26,7 @@ K_SEARCH = "C08:log-api-returns-ignored-client-by-ip-when-anonymised"
 K_MEM = "C08:log-api-memory-entries-not-refiltered"
 
 ADDR_KINDS = ("ip", "cidr", "mac")
-ACTIONS = ["EmitUniverse", "Pick", "Record1", "Flush1", "Reconf1", "Record2", "Flush2", "Reconf2", "Record3", "Reconf3"]
+ACTIONS = ["EmitUniverse", "Pick", "RegistryCall", "Record1", "Flush1", "Reconf1", "Record2", "Flush2", "Reconf2", "Record3", "Reconf3"]
 EXPECTED_VIOLATIONS = [
     # cfg, invariant that must be reported violated, what it demonstrates
     ("IgnoreAnon.asbuiltlog.cfg", "NoIgnoredLogged", "as-built lookup-after-anonymisation logs ignored clients"),
@@ -133,6 +133,8 @@ def tlc_part(ctx):
     lack = [v for v in need if not seen[v]]
     if lack:
         raise vlib.Inconclusive("vacuous tables: verdicts never produced: %s" % lack)
+    if sum(1 for x in scripts if x["hist"]) < 7:
+        raise vlib.Inconclusive("vacuous: no registry histories enumerated")
     if len(steps) != 128:
         raise vlib.Inconclusive("vacuous: only %d of 128 (endpoint, switch state, switch state) steps enumerated" % len(steps))
     return uni[0], scripts, demos, dict(seen)
@@ -152,7 +154,7 @@ def select(ctx, scripts):
     groups = collections.defaultdict(list)
     sel = []
     for s in scripts:
-        if steady(s):
+        if steady(s) and not s["hist"]:
             groups[(json.dumps(s["par"]["client"], sort_keys=True), s["k"][0]["anon"])].append(s)
         else:
             sel.append(s)
@@ -326,6 +328,7 @@ def run(ctx):
         "verdicts_in_tables": verdict_hist, "disagreements_by_class": dict(kinds),
         "design_level_demonstrations": demos, "binding_demo": binding, "truncated_by_known_finding": 0,
         "toggle_plan_scripts_replayed": sum(1 for x in sel if not steady(x)),
+        "registry_history_scripts_replayed": sum(1 for x in sel if x["hist"]),
         "exhaustive": len(sel) == len(scripts), "samples": samples,
     }
     return ctx.finish("model_checking", cov, assumptions=[
